@@ -225,12 +225,14 @@ async def find_deployment_id(name: str, force_suffix: bool = False) -> str:
     deployment_id = re.sub(r"[^a-z0-9]", "-", deployment_id)
     deployment_id = re.sub(r"-+", "-", deployment_id)
     deployment_id = re.sub(r"^-|-$", "", deployment_id)
+    # how much of the name survived: separators and the "d-" prefix do not count
+    alphanumeric_count = sum(1 for char in deployment_id if char != "-")
     # DNS-1035: must start with an alphabetic character
     if deployment_id and not deployment_id[0].isalpha():
         deployment_id = "d-" + deployment_id
     deployment_id = deployment_id[:max_length].rstrip("-")
     base_deployment_id = deployment_id
-    if len(deployment_id) < 3 or force_suffix:
+    if alphanumeric_count < 3 or force_suffix:
         deployment_id = _append_random_suffix(deployment_id, max_length)
 
     # Try to find a deployment id that is not in use
